@@ -62,7 +62,10 @@ def gen(ctx):
             yield dict(kind="ev1", hist=[[(i * i + 1) % 3 for i in range(N)]], dtype="int32", scale=1, r=r,
                        rule=rule, T=4, memo="False")
     for _ in range(ctx.n(700, 8000)):
-        yield rand_case(rng)
+        c = rand_case(rng)
+        if rng.random() < 0.2:
+            c["clobber"] = 1          # the rule overwrites the neighbourhood array it was handed
+        yield c
     if ctx.tier == "thorough":
         for N in range(1, 7):
             for r in range(1, N + 1):
@@ -79,7 +82,7 @@ def gen(ctx):
             c["r"] = rng.choice([1, 2, 3, N // 2, N - 1, N])
             yield c
     # large rings: N*(2r+1) beyond typical chunk / buffer thresholds (2^16, 2^20 elements), cell-dependent rule
-    big = [(1500, 400), (70000, 1)] if ctx.tier == "quick" else [(1500, 400), (2100, 260), (70000, 1), (40000, 14), (5000, 110)]
+    big = [(1500, 400)] if ctx.tier == "quick" else [(1500, 400), (2100, 260), (70000, 1), (40000, 14), (5000, 110)]
     for (N, r) in big:
         # (oracle only: the list-based Lean model is quadratic in N; the independent modular reference decides)
         yield dict(kind="ev1", big=1, hist=[[(i * 7 + (i // 3)) % 3 for i in range(N)]], dtype="int64", scale=1, r=r,
